@@ -364,6 +364,16 @@ Definition parse_module_model (m : mclass) (hdr : option (list N)) (is_file : bo
   | MJson => match load_text hdr is_file other bytes with Some s => OModule true s | None => ODecodeErr end
   end.
 
+(* JSR packages whose version manifest carries the module info: the module is
+   created with empty content and filled in later
+   (handle_jsr_registry_pending_content_loads): the response is matched as
+   `LoadResponse::Module { content, specifier, mtime: _, maybe_headers: _ }`
+   and decoded by new_source_with_text(&specifier, content, None, None): the
+   headers the loader supplied are dropped, the URL is https, the media type was
+   fixed from the URL when the slot was made. *)
+Definition jsr_fill_model (m : mclass) (bytes : list N) : outcome :=
+  parse_module_model m None false None bytes.
+
 (* ------------------------------------------------------------------ *)
 (* Specification side: the decoding the property speaks of, as scalar
    values, and removal of one leading byte-order mark. *)
